@@ -267,6 +267,26 @@ fn check_stop_at_mode(code: &[u8], interval: usize, k: u64, permissive: bool) ->
     Ok(())
 }
 
+/// Polls made by `TypeChecker::unify` (unification + layout building) at one poll interval; the earlier stages run
+/// unmonitored.
+fn unify_polls(code: &[u8], interval: usize) -> Option<u64> {
+    let (r, _) = with_controller(&Vec::new(), || -> Option<u64> {
+        let stream = InstructionStream::try_from(code).ok()?;
+        let mut vm = VM::new(stream, sle::vm::Config::default().with_permissive_errors(true), lazy()).ok()?;
+        let _ = vm.execute();
+        let result = vm.consume();
+        let w = CountingWatchdog::new(interval, None);
+        let mut tc = TypeChecker::new(sle::tc::Config::default(), w.clone());
+        let lifted = tc.lift(result).ok()?;
+        tc.assign_vars(lifted).ok()?;
+        tc.infer().ok()?;
+        let before = w.polls.get();
+        let _ = tc.unify();
+        Some(w.polls.get() - before)
+    });
+    r.ok().flatten()
+}
+
 /// Frequency: each stage driven on its own with its own counting watchdog.
 pub fn check_frequency(code: &[u8], interval: usize) -> Result<Vec<(String, u64, u64)>, Verdict> {
     let mut report = Vec::new();
@@ -370,14 +390,76 @@ pub fn check_frequency(code: &[u8], interval: usize) -> Result<Vec<(String, u64,
             rep.push(("infer".to_string(), n, w.polls.get() - before));
             let before = w.polls.get();
             let classes = tc.state().variables().len() as u64;
+            // independent count of the work of the FIRST unification round: equivalence classes (under the declared
+            // equalities) that carry at least one typing judgement; each is one iteration of the round loop
+            let first_round = {
+                let st = tc.state();
+                let vars = st.variables();
+                let index: std::collections::HashMap<_, usize> = vars.iter().enumerate().map(|(i, v)| (*v, i)).collect();
+                let mut parent: Vec<usize> = (0..vars.len()).collect();
+                fn find(p: &mut Vec<usize>, i: usize) -> usize {
+                    let mut r = i;
+                    while p[r] != r {
+                        r = p[r];
+                    }
+                    let mut c = i;
+                    while p[c] != r {
+                        let n = p[c];
+                        p[c] = r;
+                        c = n;
+                    }
+                    r
+                }
+                let mut has_data = vec![false; vars.len()];
+                for (i, v) in vars.iter().enumerate() {
+                    for e in st.inferences(*v) {
+                        if let sle::tc::expression::TypeExpression::Equal { id } = e {
+                            if let Some(j) = index.get(id) {
+                                let (a, b) = (find(&mut parent, i), find(&mut parent, *j));
+                                parent[a] = b;
+                            }
+                        }
+                    }
+                }
+                for (i, v) in vars.iter().enumerate() {
+                    if st.inferences(*v).iter().any(|e| !matches!(e, sle::tc::expression::TypeExpression::Equal { .. })) {
+                        let r = find(&mut parent, i);
+                        has_data[r] = true;
+                    }
+                }
+                has_data.iter().filter(|b| **b).count() as u64
+            };
             let r = tc.unify();
             let polls = w.polls.get() - before;
+            if polls < first_round / interval as u64 {
+                return Err(Verdict {
+                    key: "frequency:unify:too-few".into(),
+                    what: format!(
+                        "the first unification round alone folds {first_round} classes; at poll interval {interval} unification and layout building together made {polls} polls (at least {} expected)",
+                        first_round / interval as u64
+                    ),
+                });
+            }
             // unification + layout building: at least one poll when there is anything to do
             if classes > 0 && polls == 0 {
                 return Err(Verdict {
                     key: "frequency:unify:too-few".into(),
                     what: format!("unification over {classes} type variables at poll interval {interval} never polled"),
                 });
+            }
+            if interval > 1 {
+                // at interval 1 every checked iteration is a poll, so that run counts the iterations; polling (nearly)
+                // every iteration when an interval was requested does not track the work any more than never polling
+                if let Some(p1) = unify_polls(code, 1) {
+                    let k = interval as u64;
+                    let hi = 2 * ((p1 + k - 1) / k) + 4;
+                    if polls > hi {
+                        return Err(Verdict {
+                            key: "frequency:unify:too-many".into(),
+                            what: format!("unification and layout building have {p1} polled iterations; at poll interval {interval} they made {polls} polls (at most {hi} expected)"),
+                        });
+                    }
+                }
             }
             if interval == 1 {
                 if let Ok(layout) = &r {
